@@ -1,8 +1,89 @@
 //! Verification hook (compiled only with `--cfg quinn_rs_quinn_verif`).
+//!
+//! Component: `cid_state` — the real [`CidState`] (local connection IDs) driven by locally
+//! issued CIDs, peer-chosen RETIRE_CONNECTION_ID sequence numbers and lifetime timeouts.
+//!
+//! Times are integer microseconds relative to one `Instant` taken per case.
+//! ops (op 0 of a case should be `new`; a default `new(8, None, 0, 1)` exists before it):
+//!   [0, cid_len, lifetime_us | -1, now_us, issued]   CidState::new
+//!   [1, n, now_us]          new_cids(&[IssuedCid; n]) with sequence numbers issued..issued+n
+//!                           (what `Endpoint::send_new_identifiers` supplies)
+//!   [2, seq, limit]         on_cid_retirement(seq, limit)
+//!   [3]                     on_cid_timeout()
+//!   [4]                     (observation only)
+//! observation of every op:
+//!   [tag, v, issued, prev_retire_seq, retire_prior_to, |retire_timestamp|, next_timeout_us | -1,
+//!    |active_seq|, active_seq sorted ...]
+//!   tag 0, v = returned bool (0 for ops returning nothing) | tag 1, v = transport error code
 #![allow(missing_docs, dead_code, unused_imports, unreachable_pub, clippy::all)]
 use super::{Ops, Outs};
+use crate::{
+    ConnectionId, Duration, Instant, RESET_TOKEN_SIZE, ResetToken,
+    connection::cid_state::CidState, shared::IssuedCid,
+};
+
+fn cid_state(ops: &Ops) -> Outs {
+    let base = Instant::now();
+    let at = |t: i128| base + Duration::from_micros(t as u64);
+    let mut s = CidState::new(8, None, base, 1);
+    ops.iter()
+        .map(|op| {
+            let (tag, v): (i128, i128) = match op[0] {
+                0 => {
+                    let lifetime = if op[2] < 0 {
+                        None
+                    } else {
+                        Some(Duration::from_micros(op[2] as u64))
+                    };
+                    s = CidState::new(op[1] as usize, lifetime, at(op[3]), op[4] as u64);
+                    (0, 0)
+                }
+                1 => {
+                    let issued = s.verif_snapshot().0;
+                    let ids: Vec<IssuedCid> = (0..op[1] as u64)
+                        .map(|i| IssuedCid {
+                            sequence: issued + i,
+                            id: ConnectionId::new(&(issued + i).to_be_bytes()),
+                            reset_token: ResetToken::from([0u8; RESET_TOKEN_SIZE]),
+                        })
+                        .collect();
+                    s.new_cids(&ids, at(op[2]));
+                    (0, 0)
+                }
+                2 => match s.on_cid_retirement(op[1] as u64, op[2] as u64) {
+                    Ok(b) => (0, b as i128),
+                    Err(e) => (1, u64::from(e.code) as i128),
+                },
+                3 => (0, s.on_cid_timeout() as i128),
+                4 => (0, 0),
+                _ => return vec![-1],
+            };
+            let (issued, prev, retire_seq, ts_len, active) = s.verif_snapshot();
+            debug_assert_eq!(retire_seq, s.retire_prior_to());
+            let next = match s.next_timeout() {
+                Some(t) => t.duration_since(base).as_micros() as i128,
+                None => -1,
+            };
+            let mut o = vec![
+                tag,
+                v,
+                issued as i128,
+                prev as i128,
+                s.retire_prior_to() as i128,
+                ts_len as i128,
+                next,
+                active.len() as i128,
+            ];
+            o.extend(active.iter().map(|x| *x as i128));
+            o
+        })
+        .collect()
+}
 
 /// Interpret `ops` for component `comp`; `None` if `comp` is not served by this module.
-pub(crate) fn run(_comp: &str, _ops: &Ops) -> Option<Outs> {
-    None
+pub(crate) fn run(comp: &str, ops: &Ops) -> Option<Outs> {
+    match comp {
+        "cid_state" => Some(cid_state(ops)),
+        _ => None,
+    }
 }
